@@ -223,6 +223,11 @@ func bookkeepingClosedNoFollow(env *world.AEnv) string {
 
 // ---------------------------------------------------------------- free-running race pass (auxiliary)
 
+// C17Solo prints the observation of instance i run alone in this (fresh) process.
+func C17Solo(i int) {
+	fmt.Print(c17Bodies()[i].Run(func() {}))
+}
+
 // C17RacePass runs the thread bodies free-running on 16 goroutines (used by the -race binary).
 func C17RacePass() {
 	bodies := c17Bodies()
@@ -263,9 +268,25 @@ func init() {
 		Thorough: 40 * time.Minute,
 		Run: func(w *fw.W) {
 			bodies := c17Bodies()
+			// solo observations come from pristine processes (one per instance), so that contamination between
+			// executions of one process - sequential or interleaved - cannot hide in the baseline
 			solo := make([]string, len(bodies))
-			for i, b := range bodies {
-				solo[i] = b.Run(func() {})
+			self, _ := os.Executable()
+			for i := range bodies {
+				out, err := exec.Command(self, "-prop", "C17", "-c17solo", fmt.Sprint(i)).Output()
+				if err != nil {
+					w.Notes = append(w.Notes, "HARNESS ERROR: C17 solo subprocess failed: "+err.Error())
+					return
+				}
+				solo[i] = string(out)
+			}
+			if w.Idx == 0 {
+				for i, b := range bodies {
+					w.Evals++
+					if got := b.Run(func() {}); got != solo[i] {
+						w.Violate("sequential:interference", fmt.Sprintf("instance %q run in a process that executed other instances before differs from its run in a fresh process: %s", b.Name, firstDiffLine(solo[i], got)), map[string]any{"sequential": i})
+					}
+				}
 			}
 			bound := 2
 			if w.Thorough() {
@@ -390,6 +411,19 @@ func init() {
 			}
 			bodies := c17Bodies()
 			var vs []fw.Violation
+			var sq struct {
+				Sequential *int `json:"sequential"`
+			}
+			if json.Unmarshal(raw, &sq) == nil && sq.Sequential != nil {
+				self, _ := os.Executable()
+				for i := range bodies {
+					out, _ := exec.Command(self, "-prop", "C17", "-c17solo", fmt.Sprint(i)).Output()
+					if got := bodies[i].Run(func() {}); got != string(out) {
+						vs = append(vs, fw.Violation{Sig: "sequential:interference", Detail: firstDiffLine(string(out), got), Case: raw})
+					}
+				}
+				return vs
+			}
 			mc.Replay(rp.Choices, func(c *mc.Ctx) {
 				obs, panics, trace, _ := c17Schedule(bodies, rp.Bodies, c)
 				for i, id := range rp.Bodies {
